@@ -225,6 +225,9 @@ class CloseAnalysis(RuleAnalysis):
             flags = flags | {"precond"}
         if isinstance(node, ast.Assert):
             flags = flags | {"precond"}
+        if isinstance(node, ast.Raise) and isinstance(node.exc, ast.Call) and (dotted(node.exc.func) or "").split(".")[-1] in ("TypeError", "ValueError", "AssertionError") \
+                and "susp" not in flags and not inv:
+            flags = flags | {"precond"}  # argument validation before anything was done: the caller's bug, nothing was taken over
         return [(inv, flags)]
 
     def _is_lock(self, ce: ast.AST) -> bool:
